@@ -60,7 +60,9 @@ def _key_objects(alg: str, kind: str, form: str):
     enc = S.Encoding.PEM if form == "pem" else S.Encoding.DER
     pb = priv.private_bytes(enc, S.PrivateFormat.PKCS8, S.NoEncryption())
     qb = priv.public_key().public_bytes(enc, S.PublicFormat.SubjectPublicKeyInfo)
-    return JWKRegistry.import_key(pb, jwk["kty"]), JWKRegistry.import_key(qb, jwk["kty"])
+    # keys loaded from PEM carry a kid the application chose (not the thumbprint); DER and JWK ones get thumbprint kids in a set
+    params = {"kid": "app-kid/" + kind} if form == "pem" else None
+    return JWKRegistry.import_key(pb, jwk["kty"], params and dict(params)), JWKRegistry.import_key(qb, jwk["kty"], params and dict(params))
 
 
 def wrap_key(keyarg: str, key, other):
